@@ -70,6 +70,10 @@ pub struct Profile {
     pub all_pend: bool,
     /// inbound publishes sized around the receive buffer (may exceed it)
     pub inbound_near_rx: bool,
+    /// weights of QoS 0/1/2 for broker publishes
+    pub bpub_qos_w: [u32; 3],
+    /// lower bound on the program length (0 = the check's default)
+    pub min_steps: usize,
 }
 
 impl Default for Profile {
@@ -130,6 +134,8 @@ impl Default for Profile {
             near_mps: false,
             all_pend: false,
             inbound_near_rx: false,
+            bpub_qos_w: [1, 1, 1],
+            min_steps: 0,
         }
     }
 }
@@ -472,7 +478,7 @@ impl Gen {
         let hostile = self.p.hostile_broker;
         let rng = &mut self.rng;
         let session = &v.world.session;
-        let qos = rng.below(3) as u8;
+        let qos = rng.weighted(&self.p.bpub_qos_w) as u8;
         let inflight = session.s2c.len();
         let mut dup = false;
         let pid = if qos == 0 {
@@ -518,7 +524,11 @@ impl Gen {
             // encoded size within rx-2 ..= rx+2
             len = (room + 4 + rng.below(5)).saturating_sub(2 + 4);
         }
-        let pkt = SPacket::Publish {
+        let exact = len == room && !self.p.inbound_near_rx;
+        if exact {
+            len = room + 6;
+        }
+        let mut pkt = SPacket::Publish {
             dup,
             qos,
             retain: rng.chance(1, 4),
@@ -527,6 +537,14 @@ impl Gen {
             props,
             payload: fill(self.tag | 0x8000_0000, len, ascii),
         };
+        if exact {
+            // the largest payload with which the packet still fits: total length == rx wherever possible
+            while crate::refcodec::encode_server(&pkt).len() > rx {
+                if let SPacket::Publish { payload, .. } = &mut pkt {
+                    payload.pop();
+                }
+            }
+        }
         if crate::refcodec::encode_server(&pkt).len() > rx && !self.p.inbound_near_rx {
             return None;
         }
